@@ -113,10 +113,16 @@ Definition model_post (c : case) : list (Z * (Z * Z)) :=
       | Some i => if is_snil i then [] else match sfinal FUEL i with Some i' => sagain 2 i' | None => [] end
       | None => []
       end
-  | _, _ =>
-      (* ForEach stops at the first error: the iterator stands on the element whose callback failed *)
-      match model c with
-      | Some (l, Some _) => [(2, last l (0, 0))]
+  (* ForEach stops at the first error: where the MODEL's iterator stands when its ForEach loop returns the error
+     (Iter/PairProofs.pair_foreach_stops_at_error: on the element whose callback failed) *)
+  | m, RP t =>
+      match prun_foreach_st FUEL (interp_cb m) t with
+      | Some (_, Some _, j) => [(2, kv j)]
+      | _ => []
+      end
+  | m, RS t =>
+      match srun_foreach_st FUEL (fun i v => interp_cb m i (0, v)) t with
+      | Some (_, Some _, j) => [(2, (0, svalue j))]
       | _ => []
       end
   end.
